@@ -188,11 +188,13 @@ class FakeGdal:
         pass
 
 
-def write_raster(tr, w, h, crs_wkt):
+def write_raster(tr, w, h, crs_wkt, tags=None):
     from rasterio.io import MemoryFile
     mf = MemoryFile()
     with mf.open(driver="GTiff", width=w, height=h, count=1, dtype="uint8", crs=crs_wkt, transform=tr) as dst:
         dst.write(np.zeros((1, h, w), dtype="uint8"))
+        if tags:
+            dst.update_tags(**tags)      # file metadata, e.g. AREA_OR_POINT=Point (PixelIsPoint rasters such as DEMs)
     return mf
 
 
@@ -209,8 +211,10 @@ def run_raster(cases):
                 tr = Affine(a.pixel_size_x, 0.0, ext[0], 0.0, a.pixel_size_y, ext[1])
             else:
                 tr = Affine(a.pixel_size_x, 0.0, ext[0], 0.0, -a.pixel_size_y, ext[3])
-            mf = write_raster(tr, a.width, a.height, a.crs.to_wkt())
+            mf = write_raster(tr, a.width, a.height, a.crs.to_wkt(), c.get("tags"))
             with mf.open() as src:
+                r["written_transform"] = fl(tuple(tr)[:6])
+                r["tags"] = {k: str(v) for k, v in src.tags().items()}
                 r["transform"] = fl(tuple(src.transform)[:6])
                 r["bounds"] = fl(src.bounds)
                 with future(c.get("future")):
@@ -290,6 +294,7 @@ def run_cartopy(cases):
             a = mk_area(c["area"])
             p = a.to_cartopy_crs()
             r["bounds"] = fl(p.bounds)
+            r["x_limits"], r["y_limits"] = fl(p.x_limits), fl(p.y_limits)
             r["repeat_same"] = bool(fl(a.to_cartopy_crs().bounds) == r["bounds"] and fl(a.area_extent) == fl(c["area"]["extent"]))
             r["crs_eq"] = bool(pyproj.CRS.from_wkt(p.to_wkt()) == a.crs)
             r["crs_op"] = crs_same_grid(a.crs, pyproj.CRS.from_wkt(p.to_wkt()), a)
